@@ -255,7 +255,7 @@ def _oracle_session(ctx, case, errs, data, back):
     fmt = next(((o[1], o[2]) for o in ops if o[0] == "f"), (8, 3))
     w, d = fmt
     title = next((o[1] for o in ops if o[0] == "c"), None)
-    boxop = next((o for o in ops if o[0] in ("b3", "b9")), None)
+    boxop = next((o for o in reversed(ops) if o[0] in ("b3", "b9")), None)      # the LAST assignment counts
     # (a) no operation of a valid session raises
     for op, e in zip(ops, errs):
         if e is not None:
